@@ -24,7 +24,7 @@ RULE = (
     "every ordered pair (and triples of a sub-pool) of the pool; non-trivial = matrix non-zero; evaluations = library norm calls compared"
 )
 BOUNDS = {
-    "quick": "shapes m,n<=3 (all rectangular), pool of 24 matrices per shape from 14 integer-modulus letters, all ordered pairs, triples of an 6-matrix sub-pool, 5 scalars, 7 valid + 9 invalid ord spellings; definition cells at whole-matrix scalings 1, 1/2, 2^20, 2^-60, 2^-200, 2^200; larger shapes and 15 component masks",
+    "quick": "shapes m,n<=3 (all rectangular), pool of 24 matrices per shape from 14 integer-modulus letters, all ordered pairs, triples of an 6-matrix sub-pool, 5 scalars, 7 valid + 9 invalid ord spellings; definition cells at whole-matrix scalings 1, 1/2, 2^20, 2^-60, 2^-200, 2^200; larger shapes and 15 component masks; np.matrix / todense planes",
     "thorough": "shapes<=5",
 }
 THOROUGH_STREAMS = 8
